@@ -448,6 +448,70 @@ func runStream(t *testing.T, tape *Tape, w *World, variant string, steps int, ou
 			}
 		}
 	}
+	if v == nil && ok && len(clients) == 1 && !clients[0].ended && len(clients[0].outstanding) == clients[0].maxMsgs && tape.Bool(60) {
+		// the client sits at its message limit and EXTENDS the ack deadline of everything it
+		// holds (on the stream or with the unary RPC); long after the original deadlines have
+		// passed a new message is published: what the client holds is sent, not acknowledged,
+		// not nacked and not expired - it still counts, nothing more may be sent
+		cl := clients[0]
+		var ids []string
+		for _, a := range cl.order {
+			if _, held := cl.outstanding[a]; held {
+				ids = append(ids, a)
+			}
+		}
+		const ext = 600
+		t0 := time.Now()
+		how := "on the stream"
+		if tape.Bool(50) {
+			secs := make([]int32, len(ids))
+			for i := range secs {
+				secs[i] = ext
+			}
+			cl.in <- &pubsubpb.StreamingPullRequest{ModifyDeadlineAckIds: ids, ModifyDeadlineSeconds: secs}
+		} else {
+			how = "with ModifyAckDeadline"
+			if _, err := w.Call(context.Background(), "ModifyAckDeadline", &pubsubpb.ModifyAckDeadlineRequest{Subscription: sub.Name, AckIds: ids, AckDeadlineSeconds: ext}); err != nil {
+				v = viol("C04", "status", "ModifyAckDeadline: %v", err)
+			}
+		}
+		if v == nil {
+			v, _ = c.run(4000, after)
+		}
+		if v == nil {
+			r.ev("client extends the deadline of %s by %d s %s", r.descIDs(ids), ext, how)
+			r.M.ModAck(nil, ids, ext*time.Second, t0, time.Now())
+			v = flush()
+		}
+		for k := 0; k < 45 && v == nil; k++ {
+			time.Sleep(time.Second)
+			S.Settle()
+			v, _ = c.run(2000, after)
+		}
+		if v == nil {
+			v = flush()
+		}
+		if v == nil && !cl.ended {
+			ap, err := pubOne(context.Background(), "late")
+			if err != nil {
+				v = viol("C12", "status", "late publish: %v", err)
+			} else {
+				v = ap()
+			}
+			for round := 0; round < 2 && v == nil; round++ {
+				v, _ = c.run(4000, after)
+				time.Sleep(time.Second)
+				S.Settle()
+			}
+			if v == nil {
+				v = firstViol
+			}
+			if v == nil {
+				v = flush()
+			}
+			r.Stats["stream_extended_deadline_phase"]++
+		}
+	}
 	if v == nil && ok {
 		// the client half-closes (CloseSend) and waits for the final status: the call has to be
 		// answered (C16: every request is answered with a status, none wedges the server)
